@@ -45,6 +45,12 @@ def main():
         for rid, out in ex.map(one, [(i, PROPS) for i in ids], chunksize=1):
             if not out:
                 print(f"{rid}: silent")
+                if "--update" in sys.argv:
+                    mp = os.path.join(VERIF, "refactors", rid, "meta.json")
+                    m = json.load(open(mp))
+                    if m.get("false_alarms") or m.get("analysis_errors"):
+                        m["false_alarms"], m["analysis_errors"] = {}, {}
+                        json.dump(m, open(mp, "w"), indent=1)
                 continue
             bad += 1
             for p, (code, rules) in sorted(out.items()):
